@@ -123,7 +123,9 @@ func (tqs *TaskQueueSet) Iterate(doFn func(queue *TaskQueue)) {
 		return
 	}
 
-	main := tqs.GetMain()
+	// The read lock is already held: do not take it again through GetMain
+	// (recursive read locking deadlocks as soon as a writer is waiting).
+	main := tqs.Queues[tqs.MainName]
 	if main != nil {
 		doFn(main)
 	}
